@@ -20,14 +20,17 @@ class LockdirCleanup(Harness):
     @classmethod
     def inputs(cls, ctx, cfg):
         T, now, m0, m1 = real_var('lock_timeout'), real_var('now'), real_var('mtime_a'), real_var('mtime_b')
-        assume(AND(T >= 0, T <= 100000, now >= 0, m0 >= 0, m1 >= 0, m0 <= now, m1 <= now))
-        return dict(T=T, now=now, mtimes=[m0, m1])
+        a0, a1 = real_var('atime_a'), real_var('atime_b')
+        # taking / polling a lock writes the file (mtime) but never reads it: the access time may be arbitrarily older
+        assume(AND(T >= 0, T <= 100000, now >= 0, m0 >= 0, m1 >= 0, m0 <= now, m1 <= now, a0 >= 0, a1 >= 0, a0 <= now, a1 <= now))
+        return dict(T=T, now=now, mtimes=[m0, m1], atimes=[a0, a1])
 
     @classmethod
-    def prop(cls, ctx, cfg, T, now, mtimes):
+    def prop(cls, ctx, cfg, T, now, mtimes, atimes=(0, 0)):
         import os as real_os
         lk, b = ctx['lk'], ctx['b']
         files = {'/locks/id-1-2-3.lck': mtimes[0], '/locks/id-7-7-7.lck': mtimes[1]}
+        afiles = {'/locks/id-1-2-3.lck': atimes[0], '/locks/id-7-7-7.lck': atimes[1]}
         removed = []
 
         class OS(object):
@@ -37,6 +40,8 @@ class LockdirCleanup(Harness):
                 isfile = staticmethod(lambda p: True)
                 join = staticmethod(real_os.path.join)
                 getmtime = staticmethod(lambda p: files[p])
+                getatime = staticmethod(lambda p: afiles[p])
+                getctime = staticmethod(lambda p: files[p])
             listdir = staticmethod(lambda d: ['id-1-2-3.lck', 'id-7-7-7.lck'])
             unlink = staticmethod(lambda p: removed.append(p))
 
